@@ -1,6 +1,7 @@
 package main
 
 import (
+	"strconv"
 	"fmt"
 	"go/ast"
 	"go/constant"
@@ -80,13 +81,54 @@ func (x *Exec) monitorCall(e *ast.CallExpr, st *State, lock bool) bool {
 // checkSinks: `sink <callee> requires <expr>` clauses of the unit under
 // verification are obligations at every call of that callee, evaluated in
 // the caller's scope (locals visible at the call).
+// callOrdinal: position of call e among the calls of a function or method
+// named name in the unit's source text (1-based, source order).
+func (x *Exec) callOrdinal(e *ast.CallExpr, name string) int {
+	if x.unit == nil || x.unit.Decl == nil {
+		return 0
+	}
+	n, found := 0, 0
+	ast.Inspect(x.unit.Decl, func(nd ast.Node) bool {
+		c, ok := nd.(*ast.CallExpr)
+		if !ok {
+			return true
+		}
+		callee := ""
+		switch f := unparen(c.Fun).(type) {
+		case *ast.Ident:
+			callee = f.Name
+		case *ast.SelectorExpr:
+			callee = f.Sel.Name
+		}
+		if callee == name {
+			n++
+			if c == e {
+				found = n
+			}
+		}
+		return true
+	})
+	return found
+}
+
 func (x *Exec) checkSinks(e *ast.CallExpr, st *State, calleeShort string, args []Value, recv Value) {
 	if x.c == nil {
 		return
 	}
 	for _, sk := range x.c.Sinks {
 		pat := sk.Pattern
+		// `Name#k`: only the k-th call of Name in the unit's source text
+		wantOrd := 0
+		if i := strings.LastIndex(pat, "#"); i > 0 {
+			if n, err := strconv.Atoi(pat[i+1:]); err == nil {
+				wantOrd = n
+				pat = pat[:i]
+			}
+		}
 		if !(calleeShort == pat || strings.HasSuffix(calleeShort, "."+pat) || strings.HasSuffix(calleeShort, ")."+pat)) {
+			continue
+		}
+		if wantOrd > 0 && x.callOrdinal(e, pat) != wantOrd {
 			continue
 		}
 		old := x.curPos
@@ -155,7 +197,12 @@ func (x *Exec) checkSinks(e *ast.CallExpr, st *State, calleeShort string, args [
 // checkCallbackLit verifies the body of a function literal passed as a
 // callback: parameters are arbitrary (restricted by the contract's
 // `lit N requires` clause), captured variables have their current values.
-func (x *Exec) checkCallbackLit(lit *ast.FuncLit, st *State) {
+func (x *Exec) checkCallbackLit(lit *ast.FuncLit, st *State) { x.checkLit(lit, st, false) }
+
+// checkLit: spawn is true for `go func() {...}()`: the body runs once, from the
+// state at the go statement (nothing it assigns has been assigned by an earlier
+// invocation).
+func (x *Exec) checkLit(lit *ast.FuncLit, st *State, spawn bool) {
 	ord := x.litOrd[lit]
 	var invs, oks []*Clause
 	if x.c != nil {
@@ -175,7 +222,9 @@ func (x *Exec) checkCallbackLit(lit *ast.FuncLit, st *State) {
 	}
 	s2 := st.clone()
 	// an arbitrary invocation: whatever earlier invocations assigned is unknown
-	x.havoc(s2, x.modifiedIn(lit.Body))
+	if !spawn {
+		x.havoc(s2, x.modifiedIn(lit.Body))
+	}
 	sig, _ := x.info.TypeOf(lit).(*types.Signature)
 	if sig != nil {
 		for i := 0; i < sig.Params().Len(); i++ {
